@@ -79,9 +79,13 @@ example : chunked 3 (some 1) none [0, 1, 2, 3] = .ok [[0, 1, 2]] := by rfl
 
 /-- SOURCE FACTS, re-established on every run: for an input of every kind the harness knows (list, tuple,
     iterators, str, bytes, bytearray, deque, range, dict, memoryview, array, bare iterables) the chunks the
-    current `chunked_iter` yields have the type the model says: str for a str, bytes for a bytes, else list -/
+    current `chunked_iter` yields str chunks for a str and bytes chunks for a bytes (what "concatenating the
+    chunks gives back the input" needs), and chunks every other kind of input without raising (today: into
+    lists, `chunkKind .other = .list`; the statement does not fix that type and the check does not compare it) -/
 theorem chunk_kind_table_agrees :
-    Generated.chunkTypeTable.all (fun r => r.2 == (chunkKind (SrcKind.ofName r.1)).name) = true ∧
+    Generated.chunkTypeTable.all (fun r =>
+      if r.1 == "str" || r.1 == "bytes" then r.2 == (chunkKind (SrcKind.ofName r.1)).name
+      else r.2 != "raises") = true ∧
     Generated.chunkTypeTable.any (fun r => r.1 == "str") = true ∧
     Generated.chunkTypeTable.any (fun r => r.1 == "bytes") = true ∧
     Generated.chunkTypeTable.any (fun r => r.1 == "bytearray") = true := by decide
@@ -591,6 +595,36 @@ theorem chunk_ranges_unique (size cs off ov : Nat) (hov : ov < cs) (out : List (
     { ne := hne, head := hhead, chain := hchain, full := hfull, last := hlast, lastlen := hlastlen }
     (by omega)
   simpa [chunkRangesNat] using h
+
+/-- round 3: with `align=True` too the laws determine the output, once "on aligned boundaries" is spelled out:
+    the first range is cut at the first boundary (it ends at most `chunk_size - offset % step` after the offset),
+    every later range starts on a multiple of the step, the second one on the FIRST multiple after the offset;
+    all ranges but the first and the last are full and end before the stop.  ANY such list IS what
+    `chunk_ranges(..., align=True)` yields. -/
+theorem chunk_ranges_unique_aligned (size cs off ov : Nat) (hov : ov < cs) (out : List (Nat × Nat))
+    (hne : out ≠ [])
+    (hhead : out.head?.map (·.1) = some off)
+    (hchain : ∀ ab ∈ out.zip out.tail, ab.2.1 + ov = ab.1.2)
+    (haligned : ∀ r ∈ out.tail, r.1 % (cs - ov) = 0)
+    (hsecond : ∀ r, out.tail.head? = some r → off < r.1 ∧ r.1 ≤ off + (cs - ov))
+    (hfirst : ∀ r, out.head? = some r → r.2 ≤ off + (cs - off % (cs - ov)) ∧ (out.tail ≠ [] → r.2 < off + size))
+    (hfull : ∀ r ∈ out.tail.dropLast, r.2 = r.1 + cs ∧ r.2 < off + size)
+    (hlast : out.getLast?.map (·.2) = some (off + size))
+    (hlastlen : ∀ r, out.getLast? = some r → r.1 < r.2 ∧ r.2 ≤ r.1 + cs) :
+    out = chunkRangesNat size cs off ov true :=
+  chunkRangesNat_unique_aligned size cs off ov hov out hne hhead hchain haligned hsecond hfirst hfull hlast hlastlen
+
+/-- non-vacuity: the docstring example meets every hypothesis -/
+example : [(3, 5), (4, 9), (8, 13), (12, 17), (16, 18)] = chunkRangesNat 15 5 3 1 true :=
+  chunk_ranges_unique_aligned 15 5 3 1 (by decide) _ (by decide) (by decide) (by decide) (by decide)
+    (by simp) (by simp) (by decide) (by decide) (by simp)
+
+/-! ## default values (round 3) -/
+
+/-- SOURCE FACTS, re-established on every run from the live signatures: every default value the model assumes
+    for an argument left out is the default of the current source (more optional parameters may exist) -/
+theorem defaults_table_agrees :
+    modelDefaults.all (fun d => Generated.defaultsTable.contains d) = true := by decide
 
 /-! ## numeric arguments as passed: `int(value)`, `_validate_positive_int` -/
 
